@@ -4,6 +4,8 @@
 
 package sbi
 
+import "github.com/gin-gonic/gin"
+
 // ghost view of the response written through gin (updated by the assumed contracts of gin.Context)
 var ghostHttpStatus int
 var ghostHttpBody bool
@@ -16,3 +18,19 @@ var ghostHttpWrites int
 //@   requires s != nil && s.ServerChf != nil && c != nil && ghostHttpWrites >= 0 && ghostHttpWrites < 1<<40
 //@   ensures ghostHttpWrites == old(ghostHttpWrites)+1
 //@   ensures ghostHttpStatus == 204 || (ghostHttpStatus == 400 && ghostHttpBody)
+
+// ---- routes (C13) -------------------------------------------------------------------------------
+
+// verif_guarded: the authorisation middleware has been installed on the router group (interpreted by
+// govc: ghost state written by the assumed contract of RouterGroup.Use)
+func verif_guarded(g *gin.RouterGroup) bool { return true }
+
+// Every route is registered on a group that already carries the authorisation middleware
+// ("route" obligations at each GET/POST/PUT/PATCH/DELETE), for any list of enabled services.
+//@ func applyRoutes [C13]
+//@   requires group != nil && verif_guarded(group)
+//@   loop 0: invariant 0 <= ITER && ITER <= len(routes)
+
+//@ func newRouter [C13]
+//@   requires s != nil && s.ServerChf != nil
+//@   loop 0: invariant 0 <= ITER
